@@ -48,19 +48,26 @@ theorem runTable_deterministic (σ : Int → Rng) (w : World) (t : ToolPhases) (
         rw [stepParse_independent_of_state σ w t argv o hso ht s hs r₁ r₂]
       | _ => simp [hev, hso] at ht
 
-theorem cnfgen_seeds_while_parsing : (phasesOf "cnfgen").any seedsWhileParsing = true := by decide +kernel
+theorem tools_seed_while_parsing :
+    ∀ tool ∈ ["cnfgen", "pbgen"], (phasesOf tool).any seedsWhileParsing = true := by decide +kernel
 
-/-- T-C07.3 for the CURRENT source of cnfgen: equal command lines with a seed give equal output text, whatever the
-process -/
-theorem cliRun_deterministic (σ : Int → Rng) (w : World) (argv : List String) (s : Int)
-    (hs : seedOf argv = some s) (r₁ r₂ : Rng) : cliRun σ w argv r₁ = cliRun σ w argv r₂ := by
-  unfold cliRun
-  have h := cnfgen_seeds_while_parsing
-  cases ht : phasesOf "cnfgen" with
+/-- T-C07.3 for the CURRENT source of cnfgen and pbgen -/
+theorem toolRun_deterministic (tool : String) (htool : tool ∈ ["cnfgen", "pbgen"]) (σ : Int → Rng) (w : World)
+    (argv : List String) (s : Int) (hs : seedOf argv = some s) (r₁ r₂ : Rng) :
+    toolRun tool σ w argv r₁ = toolRun tool σ w argv r₂ := by
+  unfold toolRun
+  have h := tools_seed_while_parsing tool htool
+  cases ht : phasesOf tool with
   | none => rfl
   | some t =>
     rw [ht] at h
     exact runTable_deterministic σ w t (by simpa using h) argv s hs r₁ r₂
+
+/-- T-C07.3 for the CURRENT source of cnfgen: equal command lines with a seed give equal output text, whatever the
+process -/
+theorem cliRun_deterministic (σ : Int → Rng) (w : World) (argv : List String) (s : Int)
+    (hs : seedOf argv = some s) (r₁ r₂ : Rng) : cliRun σ w argv r₁ = cliRun σ w argv r₂ :=
+  toolRun_deterministic "cnfgen" (by simp) σ w argv s hs r₁ r₂
 
 /-! ### the run consults `random.seed` only at the seed given -/
 
@@ -179,7 +186,7 @@ theorem stepEv_inv (σ : Int → Rng) (w : World) (t : ToolPhases) (argv : List 
       · cases h; exact keep rfl
       · cases h
     · cases h; exact keep rfl
-  | headerCmdline =>
+  | headerCmdline pre =>
     simp only [CliRun.stepEv] at h
     split at h
     · cases h; exact keep rfl
@@ -207,14 +214,19 @@ theorem runFrom_sigma (σ₁ σ₂ : Int → Rng) (w : World) (t : ToolPhases) (
 /-- T-C07.4 the run consults `random.seed` only at the seed of the command line: two generators that agree on the
 state installed by THAT seed give the same outcome.  Together with T-C07.3: the output text is a function of
 (command line, state installed by the seed) — nothing else about the generator or the process enters. -/
-theorem cliRun_function_of_seeded_state (σ₁ σ₂ : Int → Rng) (w : World) (argv : List String) (s : Int)
-    (hs : seedOf argv = some s) (hσ : σ₁ s = σ₂ s) (r₁ r₂ : Rng) :
-    cliRun σ₁ w argv r₁ = cliRun σ₂ w argv r₂ := by
-  rw [cliRun_deterministic σ₁ w argv s hs r₁ r₂]
-  unfold cliRun
-  cases phasesOf "cnfgen" with
+theorem toolRun_function_of_seeded_state (tool : String) (htool : tool ∈ ["cnfgen", "pbgen"]) (σ₁ σ₂ : Int → Rng)
+    (w : World) (argv : List String) (s : Int) (hs : seedOf argv = some s) (hσ : σ₁ s = σ₂ s) (r₁ r₂ : Rng) :
+    toolRun tool σ₁ w argv r₁ = toolRun tool σ₂ w argv r₂ := by
+  rw [toolRun_deterministic tool htool σ₁ w argv s hs r₁ r₂]
+  unfold toolRun
+  cases phasesOf tool with
   | none => rfl
   | some t => exact runFrom_sigma σ₁ σ₂ w t argv s hs hσ t.events _ (Or.inl rfl)
+
+theorem cliRun_function_of_seeded_state (σ₁ σ₂ : Int → Rng) (w : World) (argv : List String) (s : Int)
+    (hs : seedOf argv = some s) (hσ : σ₁ s = σ₂ s) (r₁ r₂ : Rng) :
+    cliRun σ₁ w argv r₁ = cliRun σ₂ w argv r₂ :=
+  toolRun_function_of_seeded_state "cnfgen" (by simp) σ₁ σ₂ w argv s hs hσ r₁ r₂
 
 /-! ### witnesses: the model is not trivially constant, and reproduces recorded runs of the real tool -/
 
@@ -255,6 +267,15 @@ example :
       witnessWorld ["cnfgen", "-q", "--seed", "7", "kcolor", "2", "gnp", "3", ".5"] ⟨[], []⟩ =
     (.text "p cnf 6 10\n1 2 0\n3 4 0\n5 6 0\n-1 -2 0\n-3 -4 0\n-5 -6 0\n-1 -3 0\n-2 -4 0\n-1 -5 0\n-2 -6 0\n", 3, 0) ∧
     seedOf ["cnfgen", "-q", "--seed", "7", "kcolor", "2", "gnp", "3", ".5"] = some 7 := by
+  decide +kernel
+
+/-- recorded run of `pbgen -q --seed 3 kcolor 2 gnp 3 .5` (OPB rendering of the same family, same flow) -/
+example :
+    toolRun "pbgen" (fun _ => ⟨[.unit 2143394811796802, .unit 4901981072493965, .unit 3332259900419439], []⟩)
+      witnessWorld ["pbgen", "-q", "--seed", "3", "kcolor", "2", "gnp", "3", ".5"] ⟨[.unit 1], []⟩ =
+    (.text ("* #variable= 6 #constraint= 10\n+1 x1 +1 x2 >= 1\n+1 x3 +1 x4 >= 1\n+1 x5 +1 x6 >= 1\n+1 ~x1 +1 ~x2 >= 1\n" ++
+            "+1 ~x3 +1 ~x4 >= 1\n+1 ~x5 +1 ~x6 >= 1\n+1 ~x1 +1 ~x3 >= 1\n+1 ~x2 +1 ~x4 >= 1\n+1 ~x3 +1 ~x5 >= 1\n+1 ~x4 +1 ~x6 >= 1\n"),
+     3, 0) := by
   decide +kernel
 
 end Cnfgen.C07
